@@ -33,7 +33,8 @@ def gen_tree(rng):
             if r < 0.45 and subdirs:
                 d = rng.choice(subdirs)
                 pat = rng.choice(["%s/*.slt" % d, "%s/f?.slt" % d, "%s/f1.slt" % d, "%s/*" % d, "%s/*.part" % d,
-                                  "%s/nomatch*.slt" % d, "%s/missing.slt" % d, "d*/f1.slt", "%s/../%s/f2.slt" % (d, d)])
+                                  "%s/nomatch*.slt" % d, "%s/missing.slt" % d, "d*/f1.slt", "%s/../%s/f2.slt" % (d, d),
+                                  "*/f1.slt", "*/*.slt", "%s*/f?.slt" % d[0]])
                 parts.append("include %s\n" % pat)
             elif r < 0.5:
                 parts.append("include nowhere/*.slt\n")
@@ -50,8 +51,13 @@ def gen_tree(rng):
     def build(prefix, depth):
         subdirs = []
         if depth < 4:
-            for i in range(rng.choice([0, 1, 1, 2])):
-                subdirs.append("d%d" % (i + 1))
+            if rng.random() < 0.25:
+                # sibling directories one of whose names is a prefix of the other, followed by a character below '/':
+                # path order (component by component) differs from the order of the path strings
+                subdirs += rng.choice([["v1", "v1.1"], ["a", "a-b"], ["x", "x y"], ["d1", "d1.5", "d1-0"], ["q", "q+"]])
+            else:
+                for i in range(rng.choice([0, 1, 1, 2])):
+                    subdirs.append("d%d" % (i + 1))
         for d in subdirs:
             build(prefix + d + "/", depth + 1)
         nf = rng.randint(0, 5) if depth > 0 else 1
@@ -144,7 +150,7 @@ def direct_check(case, obs):
                 elif depth == 0:
                     break
                 j += 1
-            if fl != sorted(fl):
+            if fl != sorted(fl, key=lambda f: f.split("/")):   # path order: component by component, not the order of the strings
                 return "contradicts L1 (C14_order): files of include %r spliced in order %r" % (r[2], fl)
             if not fl:
                 return "contradicts L1: include %r expanded to nothing without an error" % r[2]
